@@ -118,6 +118,34 @@ struct KM_S2 {
   static int bucket_of(int k) { return k & 1; } // 'b' is even
 };
 
+struct HStrSum {
+  std::size_t operator()(const std::string& s) const {
+    std::size_t h = 0;
+    for (char c : s) h = h * 3 + (unsigned char)c;
+    return h;
+  }
+};
+struct KM_ID { // keys spread over the buckets
+  using key_type = int;
+  using hash = HInt;
+  static int key(int k) { return k + 1; }
+  static int unkey(int x) { return x - 1; }
+  static int bucket_of(int k) { return (k + 1) & 127; }
+};
+struct KM_I4 { // four buckets of a 128-bucket map share the keys: several extension chains
+  using key_type = int;
+  using hash = HInt;
+  static int key(int k) { return 1 + (k & 3) + 128 * (k >> 2); }
+  static int unkey(int x) { return ((x - 1) / 128) * 4 + ((x - 1) % 128); }
+  static int bucket_of(int k) { return k & 3; }
+};
+struct KM_SID {
+  using key_type = std::string;
+  using hash = HStrSum;
+  static std::string key(int k) { return std::string("key-") + char('A' + k / 8) + char('a' + k % 8); }
+  static int unkey(const std::string& s) { return (s[4] - 'A') * 8 + (s[5] - 'a'); }
+  static int bucket_of(int) { return 0; }
+};
 // storage modes ------------------------------------------------------------------------------------
 struct NV { // non-trivial value
   int v;
@@ -135,6 +163,12 @@ struct ModeTT { // trivial or non-trivial key (per KM), trivial value
   static int bucket_of(int k) { return KM::bucket_of(k); }
   static bool emplace(Map& m, int k, int v) { return m.emplace(key(k), v); }
   static std::pair<bool, int> get_or_emplace(Map& m, int k, int v) {
+    if (k & 1) { // odd keys go through the lazy variant (the factory must run iff the key is inserted)
+      int calls = 0;
+      auto r = m.get_or_emplace_lazy(key(k), [&calls, v] { calls++; return v; });
+      if (calls != (r.second ? 1 : 0)) fail("ORACLE", "get_or_emplace_lazy called the factory %d times, inserted=%d", calls, (int)r.second);
+      return {r.second, *r.first};
+    }
     auto r = m.get_or_emplace(key(k), v);
     return {r.second, *r.first};
   }
@@ -161,6 +195,12 @@ struct ModeTN { // key per KM, non-trivial value
   static int bucket_of(int k) { return KM::bucket_of(k); }
   static bool emplace(Map& m, int k, int v) { return m.emplace(key(k), NV(v)); }
   static std::pair<bool, int> get_or_emplace(Map& m, int k, int v) {
+    if (k & 1) {
+      int calls = 0;
+      auto r = m.get_or_emplace_lazy(key(k), [&calls, v] { calls++; return NV(v); });
+      if (calls != (r.second ? 1 : 0)) fail("ORACLE", "get_or_emplace_lazy called the factory %d times, inserted=%d", calls, (int)r.second);
+      return {r.second, (*r.first).v};
+    }
     auto r = m.get_or_emplace(key(k), v);
     return {r.second, (*r.first).v};
   }
@@ -199,6 +239,12 @@ struct ModeTM { // key per KM, managed_ptr value
     return ok;
   }
   static std::pair<bool, int> get_or_emplace(Map& m, int k, int v) {
+    if (k & 1) {
+      int calls = 0;
+      auto r = m.get_or_emplace_lazy(key(k), [&calls, v] { calls++; return new Node(v); });
+      if (calls != (r.second ? 1 : 0)) fail("ORACLE", "get_or_emplace_lazy called the factory %d times, inserted=%d", calls, (int)r.second);
+      return {r.second, r.first->v};
+    }
     Node* n = new Node(v);
     auto r = m.get_or_emplace(key(k), n);
     int seen = r.first->v;
@@ -559,6 +605,126 @@ void iter_fixed_test() {
   lin::require_linearizable(ItSpec{}, "a sequential map (iterator actions as map operations)");
 }
 
+// ===================================================================================================
+// Sequential sweep (C10, C11): maps of initial capacity 1 / 8 / 128 filled with up to `maxn` keys (several grows;
+// with colliding keys long extension chains), partially emptied in one of five ways (erase, extract, erase through a
+// full-traversal iterator, erase through find()), refilled, and compared key by key with a reference: try_get_value,
+// find and a full traversal must agree with it after every phase; finally everything is removed through an iterator
+// and the map must be empty and still usable (no bucket left locked).
+template <class M>
+void map_sweep() {
+  using Map = typename M::Map;
+  const int maxn = (int)opt("maxn", 24);
+  static const int caps[] = {1, 8, 128, 2, 64};
+  const int cap = caps[choose((int)opt("ncaps", 3))];
+  const int n = 1 + choose(maxn);
+  const int how = choose(5);    // which keys go: 0 none, 1 even, 2 first half, 3 all but the last, 4 every third
+  const int via = choose(4);    // 0 erase(key), 1 extract, 2 traversal + erase(iterator), 3 find + erase(iterator)
+  const int refill = choose(2); // re-insert what was removed (new values)
+  Map* map = new Map(cap);
+  int ref[64];
+  for (int i = 0; i < 64; i++) ref[i] = -1;
+  auto check_all = [&](const char* phase) {
+    int count = 0;
+    for (int k = 0; k < n + 1 && k < 64; k++) {
+      auto r = M::try_get(*map, k);
+      if (r.first != (ref[k] >= 0) || (r.first && r.second != ref[k]))
+        fail("ORACLE", "%s: try_get_value(%d) = (%d, %d), reference has %d (cap %d, n %d)", phase, k, (int)r.first, r.second, ref[k], cap, n);
+      auto it = map->find(M::key(k));
+      bool found = it != map->end();
+      if (found != (ref[k] >= 0) || (found && (M::it_key(it) != k || M::it_val(it) != ref[k])))
+        fail("ORACLE", "%s: find(%d) disagrees with the reference value %d", phase, k, ref[k]);
+      it.reset();
+      count += ref[k] >= 0;
+    }
+    bool seen[64] = {};
+    int yielded = 0;
+    for (auto it = map->begin(); it != map->end(); ++it) {
+      int k = M::it_key(it);
+      if (k < 0 || k >= 64 || ref[k] < 0) fail("ORACLE", "%s: traversal yields key %d, which is not in the map", phase, k);
+      if (seen[k]) fail("ORACLE", "%s: traversal yields key %d twice", phase, k);
+      if (M::it_val(it) != ref[k]) fail("ORACLE", "%s: traversal yields value %d for key %d, expected %d", phase, M::it_val(it), k, ref[k]);
+      seen[k] = true;
+      yielded++;
+    }
+    if (yielded != count) fail("ORACLE", "%s: traversal yields %d elements, the map holds %d (cap %d, n %d)", phase, yielded, count, cap, n);
+  };
+  for (int k = 0; k < n; k++) {
+    int v = 100 + k;
+    bool ok = (k % 3 == 2) ? M::get_or_emplace(*map, k, v).first : M::emplace(*map, k, v);
+    if (!ok) fail("ORACLE", "insertion of the absent key %d failed", k);
+    ref[k] = v;
+    if (M::emplace(*map, k, 7)) fail("ORACLE", "second insertion of key %d succeeded", k);
+    auto g = M::get_or_emplace(*map, k, 8);
+    if (g.first || g.second != v) fail("ORACLE", "get_or_emplace on the present key %d returned (%d, %d)", k, (int)g.first, g.second);
+  }
+  check_all("after the fill");
+  auto goes = [&](int k) {
+    switch (how) {
+      case 1: return (k & 1) == 0;
+      case 2: return k < n / 2;
+      case 3: return k != n - 1;
+      case 4: return k % 3 == 0;
+      default: return false;
+    }
+  };
+  if (via == 2) {
+    for (auto it = map->begin(); it != map->end();) {
+      int k = M::it_key(it);
+      if (k < 0 || k >= 64 || ref[k] < 0) fail("ORACLE", "erasing traversal yields key %d, which is not in the map", k);
+      if (goes(k)) {
+        map->erase(it);
+        ref[k] = -1;
+      } else
+        ++it;
+    }
+  } else {
+    for (int k = 0; k < n; k++) {
+      if (!goes(k)) continue;
+      if (via == 0) {
+        if (!map->erase(M::key(k))) fail("ORACLE", "erase of the present key %d failed", k);
+        if (map->erase(M::key(k))) fail("ORACLE", "second erase of key %d succeeded", k);
+      } else if (via == 1) {
+        auto r = M::extract(*map, k);
+        if (!r.first || r.second != ref[k]) fail("ORACLE", "extract(%d) = (%d, %d), expected value %d", k, (int)r.first, r.second, ref[k]);
+      } else {
+        auto it = map->find(M::key(k));
+        if (it == map->end()) fail("ORACLE", "find of the present key %d failed", k);
+        map->erase(it);
+        it.reset();
+      }
+      ref[k] = -1;
+    }
+  }
+  check_all("after the removals");
+  if (refill) {
+    for (int k = n - 1; k >= 0; k--)
+      if (ref[k] < 0) {
+        int v = 300 + k;
+        auto g = M::get_or_emplace(*map, k, v);
+        if (!g.first || g.second != v) fail("ORACLE", "get_or_emplace on the absent key %d returned (%d, %d)", k, (int)g.first, g.second);
+        ref[k] = v;
+      }
+    check_all("after the refill");
+  }
+  int removed = 0, expected = 0;
+  for (int k = 0; k < 64; k++) expected += ref[k] >= 0;
+  for (auto it = map->begin(); it != map->end();) {
+    int k = M::it_key(it);
+    if (k < 0 || k >= 64 || ref[k] < 0) fail("ORACLE", "final traversal yields key %d, which is not in the map", k);
+    ref[k] = -1;
+    map->erase(it);
+    removed++;
+  }
+  if (removed != expected) fail("ORACLE", "the final erasing traversal removed %d elements, the map held %d", removed, expected);
+  check_all("after the final traversal");
+  if (!M::emplace(*map, 0, 5)) fail("ORACLE", "emplace into the emptied map failed");
+  ref[0] = 5;
+  check_all("at the end");
+  mark_nontrivial();
+  delete map;
+}
+
 using R_HP = rec::HPs<6>;
 using R_HE = rec::HEs<6>;
 using R_EBR = rec::EBR;
@@ -571,6 +737,18 @@ using R_DEBRA = rec::DEBRA;
   XMC_TEST_FN("map_" name, (&map_test<M>), "vyukov_hash_map " name); \
   XMC_TEST_FN("it_" name, (&iter_test<M>), "vyukov_hash_map iterators " name); \
   XMC_TEST_FN("itf_" name, (&iter_fixed_test<M>), "vyukov_hash_map find+erase(iterator) vs lock-free reader " name)
+#define REGS(name, M) XMC_TEST_FN("sweep_" name, (&map_sweep<M>), "vyukov_hash_map sequential sweep " name)
+REGS("tt_id_hp", ModeTT<R_HP C_ KM_ID>);
+REGS("tt_i1_hp", ModeTT<R_HP C_ KM_I1>);
+REGS("tt_i4_ebr", ModeTT<R_EBR C_ KM_I4>);
+REGS("tn_i4_hp", ModeTN<R_HP C_ KM_I4>);
+REGS("tn_id_ebr", ModeTN<R_EBR C_ KM_ID>);
+REGS("st_sid_hp", ModeTT<R_HP C_ KM_SID>);
+REGS("st_s1_hp", ModeTT<R_HP C_ KM_S1>);
+REGS("sn_sid_ebr", ModeTN<R_EBR C_ KM_SID>);
+REGS("tm_i4_hp", ModeTM<R_HP C_ KM_I4>);
+REGS("tm_id_ebr", ModeTM<R_EBR C_ KM_ID>);
+REGS("sm_sid_hp", ModeTM<R_HP C_ KM_SID>);
 REGM("tt_i1_hp", ModeTT<R_HP C_ KM_I1>);
 REGM("tt_i2_hp", ModeTT<R_HP C_ KM_I2>);
 REGM("tt_ic_hp", ModeTT<R_HP C_ KM_IC>);
